@@ -101,6 +101,12 @@ def run(ctx):
     ctx.cov["callback_exclusion_pairs"] = len(ex)
     for clause, idxs in sorted(ebad.items()):
         pairs = sorted(set((ex[i]["f"], ex[i]["w"]) for i in idxs))
+        if clause == "C14_LiveStaysLive":
+            vf.report(ctx, clause, {"f": "cache-flip"},
+                      "while the owner of a live cache element moved its ValidUntil between 'an hour ahead' and 'never expires', concurrent %s lost / replaced / swept the element %s times" % (
+                          [p[1] for p in pairs], [ex[i]["lost"] for i in idxs]),
+                      {"records": [ex[i] for i in idxs][:10], "cmd": "bin/check C14 --tier %s" % ctx.tier})
+            continue
         if pairs[0][1] == "store-after":
             vf.report(ctx, clause, {"f": pairs[0][0]},
                       "%d case(s): what %s returned is not a result but a window into the map - a store made after it had returned shows up in it (cases: %s)" % (len(pairs), pairs[0][0], pairs[:6]),
